@@ -221,9 +221,13 @@ class Parser(with_metaclass(_ParserMeta, Node)):
         self._debug = d
         return self
 
+    # default of the optional first element in sep_by: distinguishes "no first
+    # element" from a first element with a falsy value like 0, False or None.
+    _NO_MATCH = object()
+
     @staticmethod
     def _accumulate(first, rest):
-        results = [first] if first else []
+        results = [first] if first is not Parser._NO_MATCH else []
         if rest:
             results.extend(rest)
         return results
@@ -233,7 +237,7 @@ class Parser(with_metaclass(_ParserMeta, Node)):
         Return a parser that matches zero or more instances of the current
         parser separated by instances of the parser sep.
         """
-        return Lift(self._accumulate) * Opt(self) * Many(sep >> self)
+        return Lift(self._accumulate) * Opt(self, default=self._NO_MATCH) * Many(sep >> self)
 
     def until(self, pred):
         """
